@@ -8,6 +8,7 @@
 #include "lib_common/of_rand.c"
 #include "lib_common/linear_binary_codes_utils/binary_matrix/of_hamming_weight.c"
 #include "../applis/eperftool/blocking_struct.c"
+#include "lib_common/linear_binary_codes_utils/binary_matrix/of_matrix_dense.h"
 
 int main(void)
 {
@@ -45,6 +46,12 @@ int main(void)
 		} else if (sscanf(line, "popcnt %llu", &a) == 1) {
 			printf("@ok p3=%d h32=%u naive=%u tab=%u\n", of_popcount_3(a), of_hweight32((UINT32)a),
 			       of_hweight32_naive((UINT32)a), of_hweight32_table((UINT32)a));
+		} else if (sscanf(line, "macro %llu %llu", &a, &b) == 2) {
+			/* the dense-matrix bit macros as the compiler evaluates them (b is a bit index below 32 or a column number) */
+			UINT32 w = (UINT32)a, i = (UINT32)b;
+			printf("@ok get=%u set1=%u set0=%u wi=%u bi=%u nw=%u\n", (UINT32)of_mod2_getbit(w, i & 31), (UINT32)of_mod2_setbit1(w, i & 31),
+			       (UINT32)of_mod2_setbit0(w, i & 31), i >> of_mod2_wordsize_shift, i & of_mod2_wordsize_mask,
+			       (i + of_mod2_wordsize - 1) >> of_mod2_wordsize_shift);
 		} else {
 			printf("@bad-op\n");
 		}
